@@ -205,7 +205,17 @@ BAD_DICTS = [
     {"?": -1}, {"?": 8, "c": 4}, {"?": 8, "C+1x": 2}, {"?": 8, "+1": 2}, {"?": 8, "C+²": 1},
     {"?": 8, "": 1}, {"?": 8, "C-+1": 1}, {"?": 8, 1: 1}, {"?": 8, None: 1}, {"?": 8, ("C",): 1},
     {"?": 8, "C": True}, {"?": False},
+    {"?": 8, "N+1\n": 4}, {"?": 8, "C\n": 4}, {"?": 8, "C+1 ": 4}, {"?": 8, " C": 4}, {"?": 8, "C+1\n\n": 4}, {"?\n": 8, "?": 8},
+    {"?": 8, "C+1\t": 4}, {"?": 8, "C-2\n": 1}, {"?": 8, "C+1\r": 4}, {"?": 8, "\nC": 4}, {"?": 8, "C+ 1": 4}, {"?": 8, "C+1_0": 4},
+    {"?": 8, "Fe+2\n": 6}, {"?": 8, "C +1": 1},
 ]
+
+
+def corrupt_key(rng, k):
+    """a constraint key with one stray character somewhere (whitespace, line breaks, punctuation, a digit variant)"""
+    junk = ["\n", " ", "\t", "\r", "_", ".", "0", "+", "-", "x", "\u00b2", "\u0663"]
+    pos = rng.randint(0, len(k))
+    return k[:pos] + rng.choice(junk) + k[pos:]
 
 
 # --------------------------------------------------------------------------- G-smiles
